@@ -105,6 +105,29 @@ func uvarint(b []byte) (uint64, int) {
 	return 0, 0
 }
 
+// reentrantCodec: while the inner codec marshals a marker message, another
+// complete Marshal runs on the same outer codec (what a concurrent RPC does).
+type reentrantCodec struct {
+	inner encoding.Codec
+	outer *myCodec
+	nest  proto.Message
+	other []byte
+	busy  bool
+}
+
+func (r *reentrantCodec) Marshal(v interface{}) ([]byte, error) {
+	if w, ok := v.(*wrapperspb.StringValue); ok && w.GetValue() == "marker" && !r.busy {
+		r.busy = true
+		r.other, _ = r.outer.Marshal(r.nest)
+		r.busy = false
+	}
+	return r.inner.Marshal(v)
+}
+func (r *reentrantCodec) Unmarshal(data []byte, v interface{}) error {
+	return r.inner.Unmarshal(data, v)
+}
+func (r *reentrantCodec) Name() string { return "reentrant" }
+
 type failingCodec struct{}
 
 var errInner = errors.New("inner codec fails")
@@ -318,6 +341,29 @@ func checkC19(c *vsched.RunCtx) {
 		}
 	}
 	if c.Shard == 0 {
+		// overlapping Marshal calls on one codec value
+		for _, nest := range []proto.Message{wrapperspb.String("nested-message"), &emptypb.Empty{}, wrapperspb.Int64(77)} {
+			st.Execs++
+			rc := &reentrantCodec{inner: inner, nest: nest}
+			oc := &myCodec{protoCodec: rc}
+			rc.outer = oc
+			out, err := oc.Marshal(wrapperspb.String("marker"))
+			if err != nil || len(out) < 6 {
+				report("C19.M", "Marshal fails when another Marshal overlaps", fmt.Sprint(err))
+				continue
+			}
+			for name, o := range map[string][]byte{"outer": out, "overlapping": rc.other} {
+				if len(o) < 6 {
+					report("C19.M", "Marshal fails when another Marshal overlaps", name)
+					continue
+				}
+				crc := uint32(o[2]) | uint32(o[3])<<8 | uint32(o[4])<<16 | uint32(o[5])<<24
+				if o[0] != 0xFD || o[1] != 0x7F || crc != crc32cBitwise(o[6:]) {
+					report("C19.M", "checksum wrong when two Marshal calls on one codec overlap", fmt.Sprintf("%s call with %T nested: field=%08x crc32c(payload)=%08x", name, nest, crc, crc32cBitwise(o[6:])))
+				}
+			}
+			nt[fmt.Sprintf("overlap %T", nest)] = true
+		}
 		// error of the underlying codec is passed through
 		st.Execs++
 		fc := &myCodec{protoCodec: failingCodec{}}
